@@ -77,6 +77,7 @@ type Exec struct {
 	lemmasUsed map[string]bool
 	fresh2     int
 	inputObs   []obsTerm
+	stmtHits   map[int]int
 }
 
 type emitSite struct {
@@ -121,7 +122,58 @@ func (x *Exec) block(stmts []ast.Stmt, st *State) flow {
 
 func (x *Exec) env() *evalEnv { return x.fr().env }
 
+// stmtAsserts: "before_stmt"/"after_stmt" clauses anchored at a statement by a fragment of its source text
+func (x *Exec) stmtAsserts(kind string, s ast.Stmt, st *State) {
+	fr := x.fr()
+	if !fr.top || fr.con == nil || st == nil {
+		return
+	}
+	switch s.(type) {
+	case *ast.BlockStmt, *ast.LabeledStmt:
+		return
+	}
+	var txt string
+	for k, cl := range fr.con.Clauses {
+		if cl.Kind != kind {
+			continue
+		}
+		if txt == "" {
+			txt = strings.Join(strings.Fields(exprStr(s)), " ")
+		}
+		t := strings.TrimSpace(cl.Text)
+		if !strings.HasPrefix(t, "\"") {
+			panic(evalError{fmt.Sprintf("%s:%d: BINDING: %s needs a quoted statement fragment", cl.File, cl.Line, kind)})
+		}
+		end := strings.Index(t[1:], "\"")
+		frag := t[1 : 1+end]
+		if !strings.HasPrefix(txt, frag) {
+			continue
+		}
+		body := strings.TrimSpace(t[2+end:])
+		n, err := parseSpec(body)
+		if err != nil {
+			panic(evalError{fmt.Sprintf("%s:%d: BINDING: %v", cl.File, cl.Line, err)})
+		}
+		x.st = st
+		x.stmtHits[k]++
+		pos := s.Pos()
+		if kind == "after_stmt" {
+			pos = s.End()
+		}
+		g := x.spec(x.specEnvAt(pos), n)
+		x.addObl("assert", fmt.Sprintf("%s#%d.%d", kind, k, x.stmtHits[k]), s.Pos(), g, cl.Text, cl.Props, "")
+		st.assume(g)
+	}
+}
+
 func (x *Exec) stmt(s ast.Stmt, st *State) flow {
+	x.stmtAsserts("before_stmt", s, st)
+	f := x.stmt1(s, st)
+	x.stmtAsserts("after_stmt", s, f.next)
+	return f
+}
+
+func (x *Exec) stmt1(s ast.Stmt, st *State) flow {
 	x.st = st
 	env := x.env()
 	switch n := s.(type) {
